@@ -276,7 +276,7 @@ def gen_and_build(ctx):
     against another tree may rewrite Gen/ProbeConsts.v between our translation and our build; detect that (content
     compared with what our translation produced) and repeat."""
     gen_file = os.path.join(verif.COQ, "Gen", "ProbeConsts.v")
-    for attempt in range(4):
+    for attempt in range(8):
         n_broken = len(ctx.broken)
         gen_ok = ctx.gen()
         mine = open(gen_file).read() if gen_ok and os.path.exists(gen_file) else None
@@ -286,7 +286,10 @@ def gen_and_build(ctx):
         if mine is None or now == mine:
             return gen_ok, model_ok, proof_ok
         ctx.info.append("Gen/ProbeConsts.v was rewritten by a concurrent check during the build; repeated")
-        del ctx.broken[n_broken:]
+        if attempt < 7:
+            del ctx.broken[n_broken:]
+            import time
+            time.sleep(1 + attempt)
     return gen_ok, model_ok, proof_ok
 
 
